@@ -34,6 +34,8 @@ def main():
         if not os.path.exists(patch):
             continue
         meta = json.load(open(os.path.join(d, "meta.json")))
+        if not meta.get("kept"):
+            continue
         r = sh("git", "-C", REPO, "apply", patch)
         if r.returncode != 0:
             print("%s: patch does not apply: %s" % (name, r.stderr.strip()[:200]))
@@ -43,8 +45,10 @@ def main():
             fired = {}
             errors = {}
             evdir = "/tmp/seeded_evidence_%d" % os.getpid()
-            for p in PROPS:
-                out = sh("/venv/bin/python", "-m", "bptkverif", p, "--tier", "quick", "--quiet", "--evidence-dir", evdir, cwd=ROOT)
+            from concurrent.futures import ThreadPoolExecutor
+            with ThreadPoolExecutor(16) as ex:
+                outs = list(ex.map(lambda p: (p, sh("/venv/bin/python", "-m", "bptkverif", p, "--tier", "quick", "--quiet", "--evidence-dir", evdir, cwd=ROOT)), PROPS))
+            for p, out in outs:
                 if out.returncode == 1:
                     vio = [l.strip() for l in out.stdout.splitlines() if l.strip().startswith("violation:")]
                     fired[p] = [v.split()[1] for v in vio][:4]
